@@ -2,15 +2,15 @@
 # Runs every confirmed seeded change against the quick checks, in parallel, each in its own scratch
 # worktree of /repo HEAD (the checks take --repo), so /repo itself is never touched.
 # usage: tools/run_seeded.sh [seeded/<name> ...]      env PROPS="C01 C05" restricts the checks, TIER=thorough
-cd /verif
+HERE=$(cd "$(dirname "$0")/.." && pwd); export HERE; cd $HERE   # works from a snapshot of /verif too (vp run)
 PROPS=${PROPS:-$(python3 -c "import json;print(' '.join(c['property_id'] for c in json.load(open('MANIFEST.json'))['checks']))")}
 TIER=${TIER:-quick}
 one() {
   n=$(basename $1); wt=/tmp/seedrun_${n}_$RUNID; out=/tmp/seedout_${n}_$RUNID
   rm -rf $wt $out; git -C /repo worktree add -q --detach $wt HEAD 2>/dev/null || { echo "$n: worktree failed"; return; }
-  if ! git -C $wt apply /verif/seeded/$n/patch.diff 2>/dev/null; then echo "$n: PATCH DOES NOT APPLY"; git -C /repo worktree remove --force $wt; return; fi
+  if ! git -C $wt apply $HERE/seeded/$n/patch.diff 2>/dev/null; then echo "$n: PATCH DOES NOT APPLY"; git -C /repo worktree remove --force $wt; return; fi
   hits=""
-  PL="$PROPS"; [ -n "${TARGETED:-}" ] && PL=$(python3 /verif/tools/props_for.py /verif/seeded/$n/patch.diff ${n%%-*})
+  PL="$PROPS"; [ -n "${TARGETED:-}" ] && PL=$(python3 $HERE/tools/props_for.py $HERE/seeded/$n/patch.diff ${n%%-*})
   for q in $PL; do
     o=$(VERIF_OUT=$out python3-vt -m hv.check $q --tier $TIER --repo $wt 2>&1); rc=$?
     if [ $rc = 1 ]; then hits="$hits $q($(echo "$o" | grep -c '^VIOLATION'))"; elif [ $rc = 2 ]; then hits="$hits $q(ERR)"; fi
